@@ -5,7 +5,7 @@ EXPLANATION = ('Sequential: store/update/load round trips with symbolic 32/64-bi
                'word size. Concurrent: one writer (store, optional update) and one reader (two loads) with solver-chosen context switches at '
                'every memory access; each load must equal one of the written values in all bytes and loads must not go back in time.')
 ASSUMPTIONS = ['element = NW words of 4 (align 4) or 8 bytes; slots in {1,2,3}; reader spin-waits (slots==1) beyond U iterations are outside the bound']
-TIMEOUT = {'quick': 300, 'thorough': 1800}
+TIMEOUT = {'quick': 900, 'thorough': 1800}
 SRC = 'C14/seqlock.cpp'
 
 
